@@ -13,6 +13,47 @@ from doubles.refcodec import Node
 S_WA = "s.whatsapp.net"
 
 
+def pb_field_range(buf, start, field_no):
+    """[lo, hi) byte range (tag, length and payload) of the first occurrence of a length-delimited protobuf
+    field inside buf[start:]; (0, 0) if absent or unparsable."""
+    i = start
+    n = len(buf)
+
+    def varint(i):
+        v = 0
+        shift = 0
+        while i < n:
+            b = buf[i]
+            i += 1
+            v |= (b & 0x7F) << shift
+            if not b & 0x80:
+                return v, i
+            shift += 7
+        raise ValueError
+    try:
+        while i < n:
+            t0 = i
+            tag, i = varint(i)
+            wt = tag & 7
+            fn = tag >> 3
+            if wt == 0:
+                _, i = varint(i)
+            elif wt == 2:
+                ln, i = varint(i)
+                if fn == field_no:
+                    return t0, min(n, i + ln)
+                i += ln
+            elif wt == 5:
+                i += 4
+            elif wt == 1:
+                i += 8
+            else:
+                return 0, 0
+    except ValueError:
+        pass
+    return 0, 0
+
+
 class Account(object):
     def __init__(self, jid):
         self.jid = jid
@@ -253,6 +294,13 @@ class Server(object):
                 target = encs[int(pos[1] * len(encs)) % len(encs)]
                 data = bytearray(target.data)
                 i = min(len(data) - 1, int(pos[0] * len(data)))
+                if target["type"] == "pkmsg":
+                    # a changed byte inside the identity-key field of a pkmsg is a changed identity, which the
+                    # recipient must refuse (C17) rather than answer with a retry: keep the fault outside that field
+                    lo, hi = pb_field_range(bytes(data), 1, 3)
+                    if lo <= i < hi:
+                        i = hi if hi < len(data) else max(0, lo - 1)
+                        self.stat("corrupt_moved_off_identity_field")
                 data[i] ^= 0x20 if pos[2] else 0x01
                 target.data = bytes(data)
                 self.corrupted.add(key)
